@@ -80,6 +80,21 @@ impl Facts {
 			.filter(|o| self.resolved.get(&(o.idx, 0)).map_or(true, |p| *p > pos))
 			.last()
 	}
+	/// Like `attribute`, but only when exactly one operation can own the signal.
+	fn attribute_unique(&self, pos: usize, sig: i32) -> Option<&OpRec> {
+		let kind = op_of_sig(sig);
+		let c: Vec<&OpRec> = self
+			.ops
+			.iter()
+			.filter(|o| o.op == kind && o.log_pos < pos)
+			.filter(|o| self.resolved.get(&(o.idx, 0)).map_or(true, |p| *p > pos))
+			.collect();
+		if c.len() == 1 {
+			Some(c[0])
+		} else {
+			None
+		}
+	}
 	fn push(&self, key: String, detail: String) {
 		hs(|h| {
 			if !h.violations.iter().any(|(k, _)| *k == key) {
@@ -190,7 +205,32 @@ fn c06_quiescent(f: &Facts, sc: &Sc, now: u64) {
 	}
 }
 
+/// side table: every Signal value is delivered as the documented OS signal
+fn c06_sigmap(f: &Facts, sc: &Sc) {
+	let table = crate::scen::signal_table();
+	for (op, _) in &sc.script {
+		let (i, graceful) = match op {
+			Op::SigVar(i) => (*i, false),
+			Op::GStopVar(i) => (*i, true),
+			_ => continue,
+		};
+		let (sig, want) = table[i as usize];
+		let Some(o) = f.ops.iter().find(|o| o.op == *op) else { continue };
+		// the child was running when the operation was sent at a quiescent instant
+		let sigs: Vec<i32> = f.log[o.log_pos..].iter().filter_map(|r| if let Ev::Sig { sig, ok: true, .. } = &r.ev { Some(*sig) } else { None }).collect();
+		let spawned_before = f.spawns.iter().any(|(p, _)| *p < o.log_pos);
+		let ended_before = f.gone_at.values().any(|p| *p < o.log_pos);
+		if spawned_before && !ended_before && sigs.first() != Some(&want) {
+			f.push(
+				format!("C06/signal-mapping/{}/{sig:?}", if graceful { "stop_with_signal" } else { "signal" }),
+				format!("{sig:?} must be delivered as OS signal {want}; the child received {sigs:?}"),
+			);
+		}
+	}
+}
+
 fn c06_end(f: &Facts, sc: &Sc) {
+	c06_sigmap(f, sc);
 	// (e) a graceful restart starts the replacement exactly once
 	if sc.spawn_fail_at.is_some() || sc.op_fault.is_some() || sc.drop_handle {
 		return;
@@ -200,7 +240,7 @@ fn c06_end(f: &Facts, sc: &Sc) {
 		if kind == Op::GStop {
 			continue;
 		}
-		let Some(gop) = f.attribute(*ps, *sig) else { continue };
+		let Some(gop) = f.attribute_unique(*ps, *sig) else { continue };
 		let later_relevant = sc.script.iter().enumerate().any(|(i, (o, _))| i > gop.idx && (o.may_spawn() || o.ends_job()));
 		let earlier_end = sc.script.iter().enumerate().any(|(i, (o, _))| i < gop.idx && o.ends_job());
 		if later_relevant || earlier_end {
